@@ -720,7 +720,7 @@ PROPS = {
         "assumptions": COMMON_ASSUME + ["numerals within isize (beyond it the Rust tree builder panics: C16 known finding)"],
     },
     "C15": {
-        "suites": [("print", 4000, 100000)],
+        "suites": [("print", 4000, 100000), ("fol_parse", 4000, 80000)],
         "extra": roundtrip_extra("C15", "fol"),
         "rule": "as C14 for the target language: formulas (all connectives, quantifier prefixes, chained comparisons, sorted variables and constants, predicate names notify / forallx / existsx / andy / orb / input / spec) "
                 "as theories; user guides and specifications are covered by the text correspondence of their printers",
